@@ -58,7 +58,70 @@ func genConn(t *rapid.T, maxRecs int) ConnSpec {
 	return c
 }
 
+// genBacklogScenario: one key set, many one-record chunks, an upstream that acknowledges but paces the client (late ACKs:
+// the client takes the next chunk only when an ACK frees a slot) or becomes healthy after refusals, and a stop while the
+// client is in the middle of working through the backlog; then restart(s) until drained.
+func genBacklogScenario(t *rapid.T) Scenario {
+	var sc Scenario
+	sc.Family = "backlog"
+	nOut := rapid.SampledFrom([]int{1, 1, 2}).Draw(t, "nout")
+	for i := 0; i < nOut; i++ {
+		sc.Modes = append(sc.Modes, rapid.SampledFrom([]string{"Forward", "PackedForward", "CompressedPackedForward"}).Draw(t, "mode"))
+	}
+	sc.MemWindow = rapid.SampledFrom([]int{4, 16, 64, 64}).Draw(t, "memWindow")
+	sc.ChunkBytes = 300
+	sc.BatchLogs = rapid.SampledFrom([]int{2, 8}).Draw(t, "batchLogs")
+	ngen := rapid.IntRange(1, 2).Draw(t, "ngens")
+	for g := 0; g < ngen; g++ {
+		var gen Generation
+		nconn := rapid.IntRange(1, 2).Draw(t, "nconns")
+		for c := 0; c < nconn; c++ {
+			var cs ConnSpec
+			n := rapid.IntRange(30, 110).Draw(t, "nrecs")
+			for i := 0; i < n; i++ {
+				cs.Recs = append(cs.Recs, Rec{App: 0, Host: 0, Size: rapid.IntRange(200, 400).Draw(t, "size")})
+			}
+			cs.Close = "graceful"
+			gen.Conns = append(gen.Conns, cs)
+		}
+		window := 0
+		for o := 0; o < nOut; o++ {
+			var ups []vh.UpstreamAttempt
+			switch rapid.IntRange(0, 3).Draw(t, "pace") {
+			case 0:
+				ups = nil // healthy from the start
+			case 1:
+				for k := rapid.IntRange(1, 6).Draw(t, "refusals"); k > 0; k-- {
+					ups = append(ups, vh.UpstreamAttempt{Kind: "refuse"})
+				}
+				window = max(window, 80)
+			default:
+				d := rapid.IntRange(1, 6).Draw(t, "delay")
+				ups = []vh.UpstreamAttempt{{Kind: "late", Delay: d}, {Kind: "late", Delay: d}}
+				window = max(window, 100*d)
+			}
+			gen.Upstream = append(gen.Upstream, ups)
+			gen.Down = append(gen.Down, false)
+		}
+		gen.StopAfter = rapid.IntRange(0, max(window, 10)).Draw(t, "stopAfter")
+		if rapid.IntRange(0, 4).Draw(t, "stopMid") == 0 {
+			gen.StopMid = true
+		}
+		sc.Gens = append(sc.Gens, gen)
+	}
+	final := Generation{StopAfter: 1500}
+	for o := 0; o < nOut; o++ {
+		final.Upstream = append(final.Upstream, nil)
+		final.Down = append(final.Down, false)
+	}
+	sc.Gens = append(sc.Gens, final)
+	return sc
+}
+
 func genScenario(t *rapid.T, focus string) Scenario {
+	if rapid.IntRange(0, 3).Draw(t, "family") == 0 {
+		return genBacklogScenario(t)
+	}
 	var sc Scenario
 	sc.KeyHost = rapid.Bool().Draw(t, "keyHost")
 	nOut := rapid.SampledFrom([]int{1, 1, 2}).Draw(t, "nout")
@@ -156,6 +219,7 @@ func classify(sc Scenario, o *Outcome) (bool, []string) {
 	add(late, "late-ack")
 	add(down, "upstream-down")
 	add(mid, "stop-mid-traffic")
+	add(sc.Family == "backlog", "backlog-being-worked-off-at-stop(family)")
 	add(sc.TinyQuota, "tiny-quota")
 	add(len(sc.Modes) > 1, "two-outputs")
 	add(sc.KeyHost, "two-key-fields")
